@@ -28,7 +28,9 @@ let cmd_merge (args : string list) =
       match read_input (bytes_of_hex h) with
       | None -> MBad name
       | Some (pre, bs, _) -> MFile (name, pre, bs)) args in
-  out ("out " ^ hex_of_bytes (merge_bytes ins))
+  out ("out " ^ hex_of_bytes (merge_bytes ins));
+  (* the hypotheses of C18_merged_file, evaluated on these inputs *)
+  out ("#mergeok " ^ (if merge_okb ins then "1" else "0"))
 
 let cmd_icount (args : string list) =
   let data = match args with h :: _ -> bytes_of_hex h | [] -> [] in
